@@ -474,10 +474,17 @@ def run_cli(spec, argv, timeout=120, extra_env=None, extra_files=None,
 
 # ------------------------------------------------------- output parsing
 
-RAN_RE = re.compile(r'^  Ran (\d+) tests with (\d+) failures, (\d+) errors '
-                    r'and (\d+) skipped in ', re.M)
-TOTAL_RE = re.compile(r'^Total: (\d+) tests, (\d+) failures, (\d+) errors '
-                      r'and (\d+) skipped in ', re.M)
+# (the colour formatter writes ", N skipped" where the plain one writes
+# "and N skipped"; feed it text that went through strip_ansi)
+RAN_RE = re.compile(r'^  Ran (\d+) tests with (\d+) failures, (\d+) errors'
+                    r'(?:,| and) (\d+) skipped in ', re.M)
+TOTAL_RE = re.compile(r'^Total: (\d+) tests, (\d+) failures, (\d+) errors'
+                      r'(?:,| and) (\d+) skipped in ', re.M)
+ANSI_RE = re.compile(r'\x1b\[[0-9;]*m')
+
+
+def strip_ansi(text):
+    return ANSI_RE.sub('', text)
 HDR_RE = re.compile(r'^Running (\S+) tests:$', re.M)
 
 
